@@ -25,12 +25,14 @@ package c05
 import (
 	"bytes"
 	"fmt"
+	"io"
 	"sort"
 	"strings"
 
 	"github.com/EliCDavis/polyform/formats/obj"
 	"github.com/EliCDavis/polyform/modeling"
 
+	"polyverif/internal/gen"
 	"polyverif/internal/run"
 )
 
@@ -43,6 +45,10 @@ func Spec() *run.Spec {
 			"load-save: one case = one generated valid triangulated OBJ text (0–5 g statements, faces before any g, empty groups, repeated group names, usemtl before g / after g / between faces / twice in a row / after the last face / none / same name again / reused across groups, " +
 			"the corner forms v, v/vt, v//vn, v/vt/vn, one per group or mixed face by face inside a group, pools first / interleaved / one block per group, comments, blank lines, s/o/mtllib statements, tabs, CRLF, 4-component v, 3-component vt, no final newline); " +
 			"non-trivial iff ≥ 2 groups with faces and ≥ 2 usemtl statements. files: one case = a list saved with obj.Save / obj.SaveAll and loaded with obj.Load; non-trivial iff some mesh carries ≥ 2 material ranges or ≥ 2 meshes. " +
+			"file-histories: one case = 3–6 obj.Save / obj.SaveAll / obj.Load calls in one process on one path (a third of the histories also on a second path in another directory with the same file names), materials changing between saves (new names, or same names with another Kd / Ns); " +
+			"every Load must equal the last save on its path incl. the library definition behind each material name; non-trivial iff a Load follows a re-save with other materials. " +
+			"Every ordinary read draws the reader kind (bytes.Reader, struct{io.Reader}, iotest.OneByteReader / HalfReader / DataErrReader, io.LimitReader, chunked, small bufio.Reader, os.File, io.Pipe), every ordinary write the sink kind (bytes.Buffer, small bufio.Writer, looping chunk wrapper, os.File). " +
+			"Mixed-form groups are planned: richer form first / last / in the middle / around a poorer middle / random, later faces reusing earlier tokens or not (flags mixed:*). " +
 			"fault-sequences: one case = a history of 3–8 operations in one goroutine mixing complete write-read / load-save cases on good writers and readers with obj.WriteMeshes / obj.WriteMesh / obj.WriteMaterials to a writer that fails for good after k bytes " +
 			"(k inside the comment, v, vt/vn, g, usemtl, f lines or the last byte; refusing or partially accepting the failing call) and obj.ReadMesh from a reader that fails at a line boundary; a failing call must report an error, every good operation must pass its complete oracle whatever failed before; " +
 			"non-trivial iff a failure past the first line is followed by a good operation. " +
@@ -61,28 +67,35 @@ func Spec() *run.Spec {
 		},
 		MinNontrivial: map[string]int{"quick": 300, "thorough": 2000},
 		MinObserved: map[string]int64{
-			"lists_written":                             1000,
-			"triangles_compared_readback":               5000,
-			"material_triangles_compared":               2000,
-			"later_mesh_with_normals_after_one_without": 200,
-			"later_mesh_with_uvs_after_one_without":     200,
-			"zero_length_ranges_written":                200,
-			"texts_loaded":                              1000,
-			"faces_in_texts":                            5000,
-			"g_statement_with_material_in_force":        300,
-			"loaded_lists_rewritten_and_reread":         300,
-			"text_arrangement_flags":                    12,
-			"text_forms":                                4,
-			"text_layouts":                              3,
-			"attribute_set_pairs":                       12,
-			"faces_matched_with_zero_filled_corner":     500,
-			"file_cases":                                50,
-			"huge_whole_components_written":             2000,
-			"texts_with_huge_whole_numbers":             150,
-			"fault_histories":                           500,
-			"failed_writes_reported":                    500,
-			"failed_reads_reported":                     200,
-			"write_fault_positions":                     6,
+			"lists_written":                               1000,
+			"triangles_compared_readback":                 5000,
+			"material_triangles_compared":                 2000,
+			"later_mesh_with_normals_after_one_without":   200,
+			"later_mesh_with_uvs_after_one_without":       200,
+			"zero_length_ranges_written":                  200,
+			"texts_loaded":                                1000,
+			"faces_in_texts":                              5000,
+			"g_statement_with_material_in_force":          300,
+			"loaded_lists_rewritten_and_reread":           300,
+			"text_arrangement_flags":                      26,
+			"flag:mixed:last-new-vertex-lacks-vn":         150,
+			"flag:mixed:last-new-vertex-lacks-vt":         150,
+			"flag:mixed:first-vertex-lacks-vn":            150,
+			"flag:mixed:trailing-poor-face-reuses-tokens": 40,
+			"flag:mixed:trailing-poor-face-new-tokens":    150,
+			"reader_kinds":                                9,
+			"writer_kinds":                                4,
+			"text_forms":                                  4,
+			"text_layouts":                                3,
+			"attribute_set_pairs":                         12,
+			"faces_matched_with_zero_filled_corner":       500,
+			"file_cases":                                  50,
+			"huge_whole_components_written":               2000,
+			"texts_with_huge_whole_numbers":               150,
+			"fault_histories":                             500,
+			"failed_writes_reported":                      500,
+			"failed_reads_reported":                       200,
+			"write_fault_positions":                       6,
 		},
 		Phases: []run.Phase{
 			{Name: "write-read", Cases: func(t string) int {
@@ -103,6 +116,12 @@ func Spec() *run.Spec {
 				}
 				return 800
 			}, Run: files, Batch: 100, CPUBudgetS: 20},
+			{Name: "file-histories", Cases: func(t string) int {
+				if t == "thorough" {
+					return 20000
+				}
+				return 1000
+			}, Run: fileHistories, Batch: 100, CPUBudgetS: 20},
 			{Name: "fault-sequences", Cases: func(t string) int {
 				if t == "thorough" {
 					return 40000
@@ -284,24 +303,54 @@ func checkReadBack(res *run.Result, back []obj.ObjMesh, exp []*expMesh, site, in
 	return true
 }
 
+// scratch returns the worker's scratch directory (one lookup per case).
+var scratchCtx *run.Ctx
+var scratchPath string
+
+func scratch(c *run.Ctx) string {
+	if scratchCtx != c {
+		scratchCtx, scratchPath = c, c.ScratchDir()
+	}
+	return scratchPath
+}
+
+// source draws the KIND of reader through which polyform gets the bytes.
+func source(c *run.Ctx, res *run.Result, b []byte) *gen.IOSource {
+	s := gen.NewIOSource(c.Rng, b, scratch(c), len(b) > 150000)
+	res.SetAdd("reader_kinds", s.Kind)
+	return s
+}
+
+// sinkWrite runs write against a sink of a drawn kind and returns what the sink received.
+func sinkWrite(c *run.Ctx, res *run.Result, write func(w io.Writer) error) (out []byte, err error, p *run.PanicInfo, kind string) {
+	sink := gen.NewIOSink(c.Rng, scratch(c))
+	res.SetAdd("writer_kinds", sink.Kind)
+	p = run.Try(func() { err = write(sink.W) })
+	got, ferr := sink.Finish()
+	if err == nil {
+		err = ferr
+	}
+	return append([]byte(nil), got...), err, p, sink.Kind
+}
+
 // roundTrip writes the list, checks the text, reads it back and checks the result.
 // It returns the text (nil when writing failed).
 func roundTrip(c *run.Ctx, res *run.Result, list []obj.ObjMesh, exp []*expMesh, variant, input string, wit any) []byte {
-	var buf bytes.Buffer
-	var err error
 	site := "obj.WriteMeshes"
+	if variant == "WriteMesh" {
+		site = "obj.WriteMesh"
+	}
 	c.Note("obj write " + variant + " " + input)
-	p := run.Try(func() {
+	text, err, p, sk := sinkWrite(c, res, func(w io.Writer) error {
 		switch variant {
 		case "WriteMesh":
-			site = "obj.WriteMesh"
-			err = obj.WriteMesh(list[0].Mesh, "", &buf)
+			return obj.WriteMesh(list[0].Mesh, "", w)
 		case "WriteMeshes+mtllib":
-			err = obj.WriteMeshes(list, "scene.mtl", &buf)
-		default:
-			err = obj.WriteMeshes(list, "", &buf)
+			return obj.WriteMeshes(list, "scene.mtl", w)
 		}
+		return obj.WriteMeshes(list, "", w)
 	})
+	input += ", sink " + sk
 	if p != nil {
 		res.Violate(panicClass(p), site, input, p.Value+"\n"+p.Stack, wit)
 		return nil
@@ -310,7 +359,6 @@ func roundTrip(c *run.Ctx, res *run.Result, list []obj.ObjMesh, exp []*expMesh, 
 		res.Violate("write-error", site, input, err.Error(), wit)
 		return nil
 	}
-	text := append([]byte(nil), buf.Bytes()...)
 	res.Count("bytes_written", int64(len(text)))
 	w2 := map[string]any{"list": wit, "written_text": clip(string(text), 2000)}
 	checkTextMeansList(res, string(text), exp, site, input, w2)
@@ -319,7 +367,11 @@ func roundTrip(c *run.Ctx, res *run.Result, list []obj.ObjMesh, exp []*expMesh, 
 	c.Note("obj.ReadMesh of written text")
 	var back []obj.ObjMesh
 	var libs []string
-	if p := run.Try(func() { back, libs, err = obj.ReadMesh(bytes.NewReader(text)) }); p != nil {
+	rd := source(c, res, text)
+	p = run.Try(func() { back, libs, err = obj.ReadMesh(rd.R) })
+	rd.Close()
+	input += ", reader " + rd.Kind
+	if p != nil {
 		res.Violate(panicClass(p), "obj.ReadMesh", "text written by "+site+" for "+input, p.Value+"\n"+p.Stack, w2)
 		return text
 	}
@@ -409,10 +461,10 @@ func checkLibrary(c *run.Ctx, res *run.Result, list []obj.ObjMesh, exp []*expMes
 	if len(ranges) == 0 {
 		return
 	}
-	var buf bytes.Buffer
-	var err error
 	c.Note("obj.WriteMaterials")
-	if p := run.Try(func() { err = obj.WriteMaterials(ranges, &buf) }); p != nil {
+	lib, err, p, _ := sinkWrite(c, res, func(w io.Writer) error { return obj.WriteMaterials(ranges, w) })
+	buf := bytes.NewBuffer(lib)
+	if p != nil {
 		res.Violate(panicClass(p), "obj.WriteMaterials", "material ranges of the list", p.Value+"\n"+p.Stack, wit)
 		return
 	}
@@ -422,7 +474,10 @@ func checkLibrary(c *run.Ctx, res *run.Result, list []obj.ObjMesh, exp []*expMes
 	}
 	var mats []modeling.Material
 	c.Note("obj.ReadMaterials")
-	if p := run.Try(func() { mats, err = obj.ReadMaterials(bytes.NewReader(buf.Bytes())) }); p != nil {
+	rd := source(c, res, lib)
+	p = run.Try(func() { mats, err = obj.ReadMaterials(rd.R) })
+	rd.Close()
+	if p != nil {
 		res.Violate(panicClass(p), "obj.ReadMaterials", "library written by obj.WriteMaterials", p.Value+"\n"+p.Stack, wit)
 		return
 	}
@@ -504,7 +559,11 @@ func loadSave(c *run.Ctx) run.Result {
 	c.SaveInput([]byte(text))
 	c.Note("obj.ReadMesh of generated text")
 	var loaded []obj.ObjMesh
-	if p := run.Try(func() { loaded, _, err = obj.ReadMesh(strings.NewReader(text)) }); p != nil {
+	rd := source(c, &res, []byte(text))
+	input += ", reader " + rd.Kind
+	p := run.Try(func() { loaded, _, err = obj.ReadMesh(rd.R) })
+	rd.Close()
+	if p != nil {
 		res.Violate(panicClass(p), "obj.ReadMesh", input, p.Value+"\n"+p.Stack, wit)
 		return res
 	}
@@ -522,6 +581,11 @@ func loadSave(c *run.Ctx) run.Result {
 			viewsOK = false
 			res.Count("loaded_meshes_ill_formed", 1)
 			wit["loaded_problem"] = fmt.Sprintf("group %q: %v", om.Name, verr)
+			cls := "ill-formed-result"
+			if v != nil {
+				cls = "material-range-overrun"
+			}
+			res.Violate(cls, "obj.ReadMesh", input, fmt.Sprintf("group %q loaded from a valid text: %v", om.Name, verr), wit)
 		}
 		views = append(views, v)
 	}
@@ -529,9 +593,9 @@ func loadSave(c *run.Ctx) run.Result {
 	wit["loaded"] = loadedDesc
 
 	// save
-	var buf bytes.Buffer
 	c.Note("obj.WriteMeshes of loaded list")
-	if p := run.Try(func() { err = obj.WriteMeshes(loaded, "", &buf) }); p != nil {
+	savedBytes, err, p, _ := sinkWrite(c, &res, func(w io.Writer) error { return obj.WriteMeshes(loaded, "", w) })
+	if p != nil {
 		site := "obj.WriteMeshes(obj.ReadMesh)"
 		res.Violate(panicClass(p), site, input,
 			fmt.Sprintf("saving the loaded list panics (%d faces in the text, %d triangles loaded, loaded: %s)\n%s\n%s", len(want.Faces), loadedTris, loadedDesc, p.Value, p.Stack), wit)
@@ -541,7 +605,7 @@ func loadSave(c *run.Ctx) run.Result {
 		res.Violate("write-error", "obj.WriteMeshes(obj.ReadMesh)", input, err.Error(), wit)
 		return res
 	}
-	saved := buf.String()
+	saved := string(savedBytes)
 	wit["saved_text"] = clip(saved, 2000)
 	got, err := interpretOBJ(saved)
 	if err != nil {
@@ -654,7 +718,10 @@ func loadSave(c *run.Ctx) run.Result {
 		c.SaveInput([]byte(saved))
 		c.Note("obj.ReadMesh of re-saved text")
 		var back []obj.ObjMesh
-		if p := run.Try(func() { back, _, err = obj.ReadMesh(strings.NewReader(saved)) }); p != nil {
+		rd := source(c, &res, savedBytes)
+		p := run.Try(func() { back, _, err = obj.ReadMesh(rd.R) })
+		rd.Close()
+		if p != nil {
 			res.Violate(panicClass(p), "obj.ReadMesh", "text re-saved by obj.WriteMeshes from a loaded list", p.Value+"\n"+p.Stack, wit)
 			return res
 		}
